@@ -152,8 +152,7 @@ class PathEnd(Exception):
         self.info = info or {}
 
 
-class Unsupported(Exception):
-    pass
+Unsupported = F.Unsupported
 
 
 class Config:
@@ -996,6 +995,10 @@ class Machine:
             else:
                 raise PathEnd("panic", {"kind": "explicit", "callee": name, "span": sp,
                                         "fn": self.stack[-1] if self.stack else None, "stack": list(self.stack)})
+        if ref.get("trait") in ("core::ops::function::Fn", "core::ops::function::FnMut", "core::ops::function::FnOnce") \
+                and len(args) == 2 and isinstance(args[1], VTuple):
+            # a closure (or fn item) called directly: the argument tuple is spread over the body's parameters
+            return self.call_closure(args[0], list(args[1].fields), sp)
         f = self.db.fns.get(target)
         if f is None and ref.get("trait") and "resolved" not in ref and args:
             # trait method on a generic receiver: dispatch on the runtime value
@@ -1116,6 +1119,13 @@ def explore(db, setup, cfg=None, max_paths=20000):
             status, info = "inconclusive", {"why": "unsupported: %s" % e, "stack": list(m.stack)}
         except RecursionError:
             status, info = "inconclusive", {"why": "recursion"}
+        except (TypeError, AttributeError, KeyError, IndexError, ValueError, AssertionError) as e:
+            # a value shape the evaluator has no case for: this path is undecided, the others go on
+            # (instance floors then decide whether enough of the property was still analysed)
+            import traceback
+            tb = traceback.extract_tb(e.__traceback__)[-1]
+            status, info = "inconclusive", {"why": "unsupported: evaluator has no case for this construct (%s: %s at %s:%d)" % (
+                type(e).__name__, e, tb.filename.split("/")[-1], tb.lineno), "stack": list(m.stack)}
         if status == "infeasible":
             n_infeasible += 1
         else:
